@@ -97,6 +97,8 @@ def gen_structured(r, big=False, with_ledger=False, with_query=False):
 
     nops = r.randrange(8, 40 if big else 26)
     for _ in range(nops):
+        if big and len(ops) >= 60:
+            break                                      # themes append several operations each: keep long histories bounded
         clock += r.choice([0, 1, 1, 2, 5, 20])
         x = r.random()
         if x < 0.46 or not sent:
@@ -740,11 +742,11 @@ def run(ctx, pid):
     r = ctx.rng
     hists = corpus_histories(pid)
     ncorpus = len(hists)
-    n_struct, n_mal = (110, 24) if ctx.quick else (6000, 1200)
+    n_struct, n_mal = (110, 24) if ctx.quick else (3000, 1200)
     hists += [gen_structured(r, with_ledger=(i % 6 == 5), with_query=(i % 4 == 1)) for i in range(n_struct)]
     hists += [gen_malformed(r) for _ in range(n_mal)]
     if not ctx.quick:
-        hists += [gen_structured(r, big=True, with_ledger=(i % 6 == 5), with_query=(i % 4 == 1)) for i in range(1500)]
+        hists += [gen_structured(r, big=True, with_ledger=(i % 6 == 5), with_query=(i % 4 == 1)) for i in range(600)]
         # exhaustive small scope: every sequence of length 4 over 11 symbols (2 accounts x nonces 0..2, generate,
         # commit per account, one generate+commit round, age rule), untimed batch 2 and timed batch 1; every
         # sequence of length 5 over 8 symbols (nonces 0..1, one commit symbol)
